@@ -29,6 +29,9 @@ use std::io::Write;
 fn did14(n: u32) -> String {
   if n < 5 {
     format!("did:iota:0x{}", format!("{:02x}", (n * 0x11) as u8).repeat(32))
+  } else if (20..25).contains(&n) {
+    // the same tag as DID n-20, on another network: a different DID
+    format!("did:iota:smr:0x{}", format!("{:02x}", ((n - 20) * 0x11) as u8).repeat(32))
   } else if n == 9 {
     "did:0:0".to_string()
   } else {
@@ -38,6 +41,8 @@ fn did14(n: u32) -> String {
 fn did14_of(s: &str) -> u32 {
   if s == "did:0:0" {
     9
+  } else if let Some(h) = s.strip_prefix("did:iota:smr:0x") {
+    u32::from_str_radix(&h[..2.min(h.len())], 16).map(|b| 20 + b / 0x11).unwrap_or(999)
   } else if let Some(h) = s.strip_prefix("did:iota:0x") {
     u32::from_str_radix(&h[..2.min(h.len())], 16).map(|b| b / 0x11).unwrap_or(999)
   } else if let Some(n) = s.strip_prefix("did:ex:d") {
@@ -91,6 +96,8 @@ struct Spec14 {
   rels: [Vec<E>; 5],
   sv: Vec<(Id, u32)>,
   ad: bool,
+  /// metadata variant: 0 created + updated; 1 + deactivated true; 2 + deactivated false; 3 neither date
+  md: u8,
 }
 
 fn parse_m(t: &str) -> Option<M> {
@@ -102,7 +109,7 @@ fn parse_m(t: &str) -> Option<M> {
 fn parse_spec14(t: &str) -> Option<Spec14> {
   let mut parts = t.split(';');
   let id: u32 = parts.next()?.strip_prefix('D')?.parse().ok()?;
-  let mut s = Spec14 { id, ct: Ctl::None, vm: vec![], rels: Default::default(), sv: vec![], ad: false };
+  let mut s = Spec14 { id, ct: Ctl::None, vm: vec![], rels: Default::default(), sv: vec![], ad: false, md: 0 };
   for p in parts {
     let (k, v) = p.split_once('=')?;
     let items: Vec<&str> = if v.is_empty() { vec![] } else { v.split(',').collect() };
@@ -118,7 +125,11 @@ fn parse_spec14(t: &str) -> Option<Spec14> {
       }
       "vm" => s.vm = items.iter().map(|x| parse_m(x)).collect::<Option<_>>()?,
       "sv" => s.sv = items.iter().map(|x| parse_idb(x)).collect::<Option<_>>()?,
-      "ad" => s.ad = v == "1",
+      "ad" => {
+        let n: u8 = v.parse().ok()?;
+        s.ad = n % 2 == 1;
+        s.md = n / 2;
+      }
       "a0" | "a1" | "a2" | "a3" | "a4" => {
         let n: usize = k[1..].parse().ok()?;
         s.rels[n] = items
@@ -173,7 +184,12 @@ fn doc_json14(s: &Spec14, pad: usize) -> String {
       .join(",")
   );
   j += &format!(",\"note\":{{\"self\":\"{}#k1\",\"pad\":\"{}\"}}}}", me, "x".repeat(pad));
-  j += ",\"meta\":{\"created\":\"2023-01-01T00:00:00Z\",\"updated\":\"2023-02-02T00:00:00Z\",\"extra\":[1,2]";
+  j += match s.md {
+    1 => ",\"meta\":{\"created\":\"2023-01-01T00:00:00Z\",\"updated\":\"2023-02-02T00:00:00Z\",\"deactivated\":true,\"extra\":[1,2]",
+    2 => ",\"meta\":{\"created\":\"2023-01-01T00:00:00Z\",\"updated\":\"2023-02-02T00:00:00Z\",\"deactivated\":false,\"extra\":[1,2]",
+    3 => ",\"meta\":{\"extra\":[1,2]",
+    _ => ",\"meta\":{\"created\":\"2023-01-01T00:00:00Z\",\"updated\":\"2023-02-02T00:00:00Z\",\"extra\":[1,2]",
+  };
   if s.ad {
     j += ",\"governorAddress\":\"rms1qgov\",\"stateControllerAddress\":\"rms1qstate\"";
   }
@@ -436,6 +452,7 @@ fn base_spec() -> Spec14 {
     rels: [vec![E::Refer(i(1, 0, 1)), E::Embed(M { id: i(1, 0, 2), body: 13, ctl: 2 })], vec![], vec![], vec![], vec![E::Refer(i(7, 0, 9))]],
     sv: vec![(i(1, 0, 5), 14)],
     ad: true,
+    md: 0,
   }
 }
 
@@ -457,9 +474,22 @@ fn frame_req(n: usize) -> String {
     Ok(d) => d,
     Err(_) => return "bad-request".into(),
   };
-  match doc.pack() {
+  match doc.clone().pack() {
     Err(_) => "err:toolarge".into(),
-    Ok(b) => format!("ok:{}:{}", hex(&b[..7.min(b.len())]), b.len().saturating_sub(7)),
+    Ok(b) => {
+      let line = format!("ok:{}:{}", hex(&b[..7.min(b.len())]), b.len().saturating_sub(7));
+      // what was packed must unpack, for the own DID, to an equal document
+      let own = doc.id().clone();
+      let back = StateMetadataDocument::unpack(&b).and_then(|m| m.into_iota_document(&own));
+      let mut want = doc.clone();
+      want.metadata.governor_address = None;
+      want.metadata.state_controller_address = None;
+      match back {
+        Ok(d) if d == want => line,
+        Ok(_) => format!("{}\t#FAIL:roundtrip-not-equal:a packed document with a payload of {} bytes unpacks to a different document", line, b.len().saturating_sub(7)),
+        Err(e) => format!("{}\t#FAIL:unpack-refused:a packed document with a payload of {} bytes does not unpack: {:?}", line, b.len().saturating_sub(7), e),
+      }
+    }
   }
 }
 
@@ -504,14 +534,16 @@ fn show_spec(s: &Spec14) -> String {
     s.rels[3].iter().map(e).collect::<Vec<_>>().join(","),
     s.rels[4].iter().map(e).collect::<Vec<_>>().join(","),
     s.sv.iter().map(|(i, b)| format!("{}.{}", show_id14(*i), b)).collect::<Vec<_>>().join(","),
-    s.ad as u8
+    s.ad as u8 + 2 * s.md
   )
 }
 
 fn rdid(r: &mut Rng, me: u32, exotic: bool) -> u32 {
   match r.below(10) {
     0..=4 => me,
-    5..=6 => (me + 1 + r.below(3) as u32) % 5,
+    5 => (me + 1 + r.below(3) as u32) % 5,
+    // the same tag on another network
+    6 => if me < 5 { me + 20 } else { (me + 1) % 5 },
     7 => 7,
     8 => {
       if exotic {
@@ -583,7 +615,7 @@ fn random_spec(r: &mut Rng, exotic: bool) -> Spec14 {
     }
   }
   let sv = (0..n(r)).map(|_| (take(r), 11 + r.below(80) as u32)).collect();
-  Spec14 { id: me, ct, vm, rels, sv, ad: r.chance(1, 2) }
+  Spec14 { id: me, ct, vm, rels, sv, ad: r.chance(1, 2), md: *r.pick(&[0, 0, 1, 2, 3]) }
 }
 
 pub fn gen(thorough: bool, seed: u64, out: &mut impl Write) {
@@ -659,7 +691,7 @@ pub fn gen(thorough: bool, seed: u64, out: &mut impl Write) {
     emit(out, &x[..cut]);
   }
   // (c) the 16-bit length bound
-  for n in [1500usize, 1501, 4096, 65533, 65534, 65535, 65536, 65537, 70000, 131071, 131072, 200000] {
+  for n in [1500usize, 1501, 4096, 32767, 32768, 60000, 65527, 65528, 65529, 65530, 65531, 65532, 65533, 65534, 65535, 65536, 65537, 70000, 131071, 131072, 200000] {
     writeln!(out, "C14 frame {}", n).unwrap();
   }
 }
